@@ -217,6 +217,14 @@ def _array_shape(name, layouts):
         v.prove("net_stoichs_matrix", SP.conj([v.eq(ns[ri, si], spec_net(d, k)) for ri, d in enumerate(ds) for si, k in enumerate(subst)]))
         ar = v.call(rsys.active_reac_stoichs)
         v.prove("active_reac_stoichs_matrix", SP.conj([v.eq(ar[ri, si], d[0].get(k, 0)) for ri, d in enumerate(ds) for si, k in enumerate(subst)]))
+        # the other three matrices and a caller-chosen subset / order of keys (d = [active reac, active prod, inactive reac, inactive prod])
+        for label, meth, entry in (("all_reac", rsys.all_reac_stoichs, lambda d, k: d[0].get(k, 0) + d[2].get(k, 0)), ("all_prod", rsys.all_prod_stoichs, lambda d, k: d[1].get(k, 0) + d[3].get(k, 0)),
+                                   ("active_prod", rsys.active_prod_stoichs, lambda d, k: d[1].get(k, 0))):
+            mtx = v.call(meth)
+            v.prove(label + "_stoichs_matrix", mtx.shape == (len(ds), len(subst)) and SP.conj([v.eq(mtx[ri, si], entry(d, k)) for ri, d in enumerate(ds) for si, k in enumerate(subst)]))
+        sub_keys = ["D", "A"]
+        nsub = v.call(rsys.net_stoichs, sub_keys)
+        v.prove("net_stoichs_for_given_keys", nsub.shape == (len(ds), 2) and SP.conj([v.eq(nsub[ri, si], spec_net(d, k)) for ri, d in enumerate(ds) for si, k in enumerate(sub_keys)]))
     return _
 
 
@@ -239,6 +247,14 @@ def _(v):
         ok = ok and m.tolist() == exp and m.shape == (3, 2)
         n += 1
     v.prove("all_81_small_cases", ok and n == 81)
+    # tie to the property: for reactions without inactive parts the coefficient matrix is the transposed net stoichiometry matrix of the system
+    from chempy.chemistry import Reaction, Substance
+    from chempy.reactionsystem import ReactionSystem
+    rxns = [Reaction({"B": 2, "A": 1}, {"C": 3}, checks=()), Reaction({"C": 1, "A": 1}, {"A": 2, "D": 1}, checks=()), Reaction({}, {"B": 1}, checks=())]
+    names = ["C", "A", "D", "B"]
+    rs = ReactionSystem(rxns, [Substance(k) for k in names], checks=())
+    m = get_coeff_mtx(names, [(r.reac, r.prod) for r in rxns])
+    v.prove("is_the_transposed_net_stoichiometry", m.tolist() == [[int(x) for x in row] for row in rs.net_stoichs().T.tolist()] == [[3, -1, 0], [-1, 1, 0], [0, 1, 0], [-2, 0, 1]])
 
 
 @harness("C03", "no_hidden_state_between_evaluations", functions=[CH + ":Reaction.rate", CH + ":Reaction.rate_expr", RS + ":ReactionSystem.rates"], kind="shape-bounded", samples=25)
